@@ -307,4 +307,19 @@ theorem den_mkRat_pow10_dvd (m : Int) (k : Nat) : (mkRat m (10 ^ k)).den ∣ 10 
   · exact Nat.one_dvd _
   · exact Nat.div_dvd_of_dvd (Nat.gcd_dvd_left _ _)
 
+theorem den_mkRat_dvd (n : Int) (d : Nat) (hd : d ≠ 0) : (mkRat n d).den ∣ d := by
+  rw [Rat.den_mkRat]; simp only [hd, if_false]
+  exact Nat.div_dvd_of_dvd (Nat.gcd_dvd_left _ _)
+
+/-- decimal rationals are closed under `+` and `*` (and `-`, see `Rat.neg_den`) -/
+theorem dec_add (a b : Rat) (i j : Nat) (ha : a.den ∣ 10 ^ i) (hb : b.den ∣ 10 ^ j) :
+    (a + b).den ∣ 10 ^ (i + j) := by
+  rw [Rat.add_def', Nat.pow_add]
+  exact Nat.dvd_trans (den_mkRat_dvd _ _ (Nat.mul_ne_zero a.den_nz b.den_nz)) (Nat.mul_dvd_mul ha hb)
+
+theorem dec_mul (a b : Rat) (i j : Nat) (ha : a.den ∣ 10 ^ i) (hb : b.den ∣ 10 ^ j) :
+    (a * b).den ∣ 10 ^ (i + j) := by
+  rw [Rat.mul_def', Nat.pow_add]
+  exact Nat.dvd_trans (den_mkRat_dvd _ _ (Nat.mul_ne_zero a.den_nz b.den_nz)) (Nat.mul_dvd_mul ha hb)
+
 end Knut.Dec
